@@ -167,6 +167,11 @@ pub struct Exec {
     pub beacon: Arc<Beacon>,
     pub max_failures: usize,
     cr_memo: HashMap<(u32, bool, u64, u64), u64>,
+    /// when set: `<prefix>.current.ops` mirrors the lines of the running case (unbuffered), and every
+    /// oracle failure is written out at once (`<prefix>.oracle<k>.ops`, `<prefix>.failures.jsonl`), so that
+    /// a hang or an abort of the process loses nothing
+    pub log_prefix: Option<String>,
+    cur_file: Option<std::fs::File>,
 }
 
 impl Exec {
@@ -203,12 +208,17 @@ impl Exec {
             beacon,
             max_failures: 50,
             cr_memo: HashMap::new(),
+            log_prefix: None,
+            cur_file: None,
         }
     }
 
     pub fn begin_case(&mut self) {
         self.case += 1;
         self.case_starts.push(self.lines.len());
+        if let Some(p) = &self.log_prefix {
+            self.cur_file = std::fs::File::create(format!("{}.current.ops", p)).ok();
+        }
     }
 
     fn bump(&mut self, k: &str) {
@@ -217,14 +227,39 @@ impl Exec {
 
     pub fn fail(&mut self, props: &[&'static str], msg: String) {
         if self.failures.len() < self.max_failures {
-            let line_no = self.lines.len() - self.case_starts.last().copied().unwrap_or(0);
-            self.failures.push(Failure {
+            let start = self.case_starts.last().copied().unwrap_or(0);
+            let line_no = self.lines.len() - start;
+            let f = Failure {
                 props: props.to_vec(),
                 case: self.case,
                 line_no,
                 line: self.lines.last().cloned().unwrap_or_default(),
                 msg,
-            });
+            };
+            if let Some(p) = &self.log_prefix {
+                use std::io::Write;
+                let file = format!("{}.oracle{}.ops", p, self.failures.len() + 1);
+                let mut body = String::new();
+                for l in &self.lines[start..] {
+                    body.push_str(l);
+                    body.push('\n');
+                }
+                let _ = std::fs::write(&file, body);
+                if let Ok(mut fl) = std::fs::OpenOptions::new().create(true).append(true).open(format!("{}.failures.jsonl", p)) {
+                    let props_json: Vec<String> = f.props.iter().map(|x| format!("\"{}\"", x)).collect();
+                    let _ = writeln!(
+                        fl,
+                        "{{\"props\":[{}],\"case\":{},\"line_no\":{},\"line\":{},\"msg\":{},\"file\":{}}}",
+                        props_json.join(","),
+                        f.case,
+                        f.line_no,
+                        crate::json_str(&f.line),
+                        crate::json_str(&f.msg),
+                        crate::json_str(&file)
+                    );
+                }
+            }
+            self.failures.push(f);
         }
     }
 
@@ -381,7 +416,15 @@ impl Exec {
                     }
                 }
                 Err(m) => {
-                    self.fail(props, format!("result {}: {}", show_ref(r), m));
+                    // a result handle whose diagram runs into a free cell / leaves the table is also a
+                    // structural violation (C04) and cannot be compared with anything (C01)
+                    let mut ps: Vec<&'static str> = props.to_vec();
+                    for extra in ["C04", "C01"] {
+                        if !ps.contains(&extra) {
+                            ps.push(extra);
+                        }
+                    }
+                    self.fail(&ps, format!("result {}: {}", show_ref(r), m));
                     exp = None;
                 }
             }
@@ -587,6 +630,11 @@ impl Exec {
 
     pub fn step(&mut self, line: &str) -> String {
         self.lines.push(line.to_string());
+        if let Some(f) = self.cur_file.as_mut() {
+            use std::io::Write;
+            let _ = f.write_all(line.as_bytes());
+            let _ = f.write_all(b"\n");
+        }
         *self.beacon.line.lock().unwrap() = line.to_string();
         self.beacon.started_ms.store(now_ms(), Ordering::SeqCst);
         let toks: Vec<&str> = line.split(' ').filter(|t| !t.is_empty()).collect();
